@@ -285,7 +285,12 @@ def _helper_of(ix, fi, call: ast.Call):
                     break
         return h
     if isinstance(f, ast.Name):
-        return fi.module.functions.get(f.id)
+        h = fi.module.functions.get(f.id)
+        if h is None:
+            r = ix.resolve(fi.module, f.id)
+            if r and r[0] == "func":
+                h = r[1]
+        return h
     return None
 
 
@@ -385,6 +390,69 @@ def with_helpers(ctx, fi, exclude=(), only_private=True, depth=3, inline_locals=
             if isinstance(s, ast.Try):
                 for hd in s.handlers:
                     expand_stmt_list(hd.body, d)
+            if isinstance(s, (ast.Assign, ast.AnnAssign, ast.Expr, ast.Return)) and d > 0 and getattr(s, "value", None) is not None:
+                # a call of a straight-line single-return helper in argument position is hoisted into a temporary first
+                top = s.value
+                hoisted = None
+                scoped = set()
+                for sc_ in ast.walk(top):
+                    if isinstance(sc_, (ast.ListComp, ast.DictComp, ast.SetComp, ast.GeneratorExp, ast.Lambda, ast.IfExp, ast.BoolOp)):
+                        scoped.update(id(x_) for x_ in ast.walk(sc_) if x_ is not sc_)
+                for c_ in ast.walk(top):
+                    if c_ is top or not isinstance(c_, ast.Call) or id(c_) in scoped:
+                        continue
+                    h_ = _helper_of(ctx.ix, fi, c_)
+                    if eligible(h_) and _as_expression(_body_no_doc(h_.node)) is None:
+                        hb_ = _body_no_doc(h_.node)
+                        rets_ = [r for r in walk_nested_free(h_.node) if isinstance(r, ast.Return)]
+                        if hb_ and len(rets_) == 1 and rets_[0] is hb_[-1] and rets_[0].value is not None and _bind(h_, c_) is not None:
+                            hoisted = c_
+                            break
+                if hoisted is not None:
+                    counter[0] += 1
+                    tmp = f"_hoisted{counter[0]}"
+                    caller_names.add(tmp)
+                    pre_stmt = ast.Assign(targets=[ast.Name(id=tmp, ctx=ast.Store())], value=hoisted, lineno=s.lineno)
+                    ast.copy_location(pre_stmt, s)
+                    parent_map = {ch: n_ for n_ in ast.walk(s) for ch in ast.iter_child_nodes(n_)}
+                    _replace(parent_map[hoisted], hoisted, ast.copy_location(ast.Name(id=tmp, ctx=ast.Load()), hoisted))
+                    ast.fix_missing_locations(pre_stmt)
+                    body[i:i] = [pre_stmt]
+                    continue  # re-examine the new assignment at position i
+            if isinstance(s, (ast.Assign, ast.AnnAssign)) and isinstance(s.value, ast.Call) and d > 0:
+                # x = helper(args) where the helper is straight-line code ending in its only `return E`
+                h = _helper_of(ctx.ix, fi, s.value)
+                if eligible(h) and _as_expression(_body_no_doc(h.node)) is None:
+                    hb = _body_no_doc(h.node)
+                    rets = [r for r in walk_nested_free(h.node) if isinstance(r, ast.Return)]
+                    if hb and len(rets) == 1 and rets[0] is hb[-1] and rets[0].value is not None:
+                        m = _bind(h, s.value)
+                        if m is not None:
+                            counter[0] += 1
+                            tag = f"__{h.name.strip('_')}{counter[0]}"
+                            stored = {x.id for x in ast.walk(h.node) if isinstance(x, ast.Name) and isinstance(x.ctx, ast.Store)}
+                            rename = {nm: nm + tag for nm in stored if nm in caller_names}
+                            pre, mapping = [], {}
+                            for p_, a_ in m.items():
+                                if p_ in stored or not isinstance(a_, (ast.Name, ast.Attribute, ast.Constant, ast.Subscript)):
+                                    pn = p_ + tag if p_ in caller_names else p_
+                                    pre.append(ast.Assign(targets=[ast.Name(id=pn, ctx=ast.Store())], value=copy.deepcopy(a_), lineno=s.lineno))
+                                    rename[p_] = pn
+                                else:
+                                    mapping[p_] = a_
+                            sub = _Subst(mapping, rename)
+                            new = pre + [sub.visit(copy.deepcopy(x)) for x in hb[:-1]]
+                            last = copy.deepcopy(s)
+                            last.value = sub.visit(copy.deepcopy(hb[-1].value))
+                            new.append(last)
+                            _relocate(new, s)
+                            for nd in new:
+                                ast.fix_missing_locations(nd)
+                            expand_stmt_list(new, d - 1)
+                            caller_names.update(x.id for nd in new for x in ast.walk(nd) if isinstance(x, ast.Name))
+                            body[i:i + 1] = new
+                            i += len(new)
+                            continue
             is_tail = isinstance(s, ast.Return) and isinstance(s.value, ast.Call)
             if (is_tail or (isinstance(s, ast.Expr) and isinstance(s.value, ast.Call))) and d > 0:
                 h = _helper_of(ctx.ix, fi, s.value)
